@@ -40,6 +40,7 @@ def scanner(name, extra_req='', extra_ens='', **kw):
 
 def build():
     U = Unit('LEX', props=['C14', 'C01', 'C11', 'C15', 'C02', 'C12'])
+    U.tag_loops = True     # loop invariants state property-relevant facts about abstractions: a failing one is reported
     f = U.file(L)
     f.item('struct', 'Token')
     f.item('enum', 'TokenKind', derive='keep')
